@@ -228,6 +228,10 @@ class Grammar:
         elif is_generic_list(ty):
             ta = get_generic_parameter(ty)
             return int(self.expansion_depthing) + self.get_distance_to_terminal(ta)
+        elif is_union(ty):
+            return int(self.expansion_depthing) + min(
+                self.get_distance_to_terminal(t) for t in get_generic_parameters(ty)
+            )
         elif is_generic(ty):
             return int(self.expansion_depthing) + max(
                 self.get_distance_to_terminal(t) for t in get_generic_parameters(ty)
